@@ -11,6 +11,7 @@ found, whose regenerated `Wait` equals `Model.C04.waitOld` (lateness judged agai
 -/
 import Pandora.Gen.Waiter
 import Pandora.Model.C04
+import Pandora.Model.C04Ext
 
 namespace Pandora.Bridge.Waiter
 open Pandora.Go.C04 Pandora.Model.C04
@@ -111,5 +112,30 @@ theorem schedule_wiring :
 every pool section (no condition around the per-section lookup): not for some formats, sources or positions only -/
 theorem cli_default_unconditional :
     Gen.Waiter.cliDefaultGuard = "type-assertion-only" ∧ Gen.Waiter.cliDefaultInnerGuards = [] := by decide
+
+/-! ### round 3 -/
+
+/-- the regenerated `Wait` with the state of `w.timer` threaded through (lazy `NewTimer`, `Reset`, the receive in the final
+`select`) is the model's `waitT` -/
+theorem WaitT_eq (w : Waiter) (tm : TimerSt) (e : Env) : Gen.Waiter.WaitT w tm e = waitT .fresh w tm e := by
+  unfold Gen.Waiter.WaitT waitT TimerSt.arm
+  by_cases hc : e.ctxDone = true
+  · simp [hc]
+  · cases htok : e.tok with
+    | none => simp [hc]
+    | some next =>
+      by_cases h1 : timeSub next w.lastNow ≤ 0 <;> by_cases h2 : timeSub next e.now ≤ 0 <;>
+        by_cases h3 : e.timerWins = true <;> simp [hc, h1, h2, h3]
+
+/-- `NewWaiter` sets nothing but the schedule (no timer, zero cached reading, zero overdue: `Waiter.init` and the default `TimerSt`),
+and nothing in the package touches a `timer` field except the arming statement and the `case <-w.timer.C` of `Wait` -/
+theorem newWaiter_wiring : Gen.Waiter.newWaiterFields = ["sched"] ∧ Gen.Waiter.timerOtherUses = 0 := by decide
+
+/-- where the phout aggregator prints the net code: the regenerated indices of the `key…` constants are the model's,
+`SetUserNet` stores under `keyErrno`, `set` is the plain store, and a line is time stamp, TAB, tags, `#id`, then every field after a TAB -/
+theorem phout_wiring :
+    Gen.Waiter.phKeyErrno = phKeyErrno ∧ Gen.Waiter.phKeyProtoCode = phKeyProtoCode ∧ Gen.Waiter.phFieldsNum = phFieldsNum ∧
+    Gen.Waiter.phSetUserNetKey = "keyErrno" ∧ Gen.Waiter.phSetBody = "s.fields[k] = v" ∧
+    Gen.Waiter.phoutLayout = ["timestamp", "TAB", "tags", "#id", "TAB+field*"] := by decide
 
 end Pandora.Bridge.Waiter
